@@ -39,9 +39,16 @@ def parseShape (j : Json) : Shape :=
 
 def entryShape (d : Desc) : Shape := match d.valueShape with | .map s => s | s => s
 
+def nullEntry (T : List Desc) : Shape → List String
+  | .ref w => match findDesc T w with
+              | some d => if d.valueNilSafe then [] else ["nullRefEntry"]
+              | none => []
+  | _ => []
+
 /-- Branches of the model reached by this input (coverage report; mirrors the recursion of `rt`). -/
 partial def branches (T : List Desc) : Shape → JV → List String
   | .leaf, _ => []
+  | .strLeaf, _ => []
   | .unknown _, _ => []
   | .types, .arr [] => ["types.empty"]
   | .types, .arr [_] => ["types.single"]
@@ -51,11 +58,11 @@ partial def branches (T : List Desc) : Shape → JV → List String
   | .addProps, .obj [] => ["addProps.empty"]
   | .addProps, .obj kvs => "addProps.schema" :: branches T (.ref "openapi3.SchemaRef") (.obj kvs)
   | .addProps, _ => []
-  | .list s, .arr xs => xs.flatMap (branches T s)
+  | .list s, .arr xs => xs.flatMap (fun x => (if x.isNull then ["list.null"] else []) ++ branches T s x)
   | .list _, _ => []
   | .map s, .obj kvs => kvs.flatMap (fun kv => branches T s kv.2)
   | .map _, _ => []
-  | .pmap s, .obj kvs => kvs.flatMap (fun kv => (if kv.2.isNull then ["pmap.null"] else []) ++ branches T s kv.2)
+  | .pmap s, .obj kvs => kvs.flatMap (fun kv => (if kv.2.isNull then ["pmap.null"] ++ nullEntry T s else []) ++ branches T s kv.2)
   | .pmap _, _ => []
   | .ref w, v =>
     match findDesc T w, v with
@@ -70,7 +77,7 @@ partial def branches (T : List Desc) : Shape → JV → List String
     | none => ["table.miss"]
     | some d => ["maplike:" ++ w] ++ kvs.flatMap (fun kv =>
         if isExtKey kv.1 then ["maplike.ext"]
-        else (if kv.2.isNull then ["maplike.null"] else []) ++ branches T (entryShape d) kv.2)
+        else (if kv.2.isNull then ["maplike.null"] ++ nullEntry T (entryShape d) else []) ++ branches T (entryShape d) kv.2)
   | .maplike _, _ => []
   | .kind k, v =>
     match findDesc T k, v with
@@ -86,6 +93,8 @@ partial def branches (T : List Desc) : Shape → JV → List String
           (if kvs.any (fun kv => (fieldByKey d kv.1).isNone && !isExtKey kv.1) then ["unknown.kept"] else []) ++
           (if kvs.any (fun kv => match fieldByKey d kv.1 with | some f => isDefault f.tc kv.2 | none => false) then ["default.dropped"] else []) ++
           (if (alwaysKeys d).any (fun k => !hasKey k kvs) then ["required.added"] else []) ++
+          (if d.marsh.any (fun m => m.guard == .always && (fieldByGo d m.goName).any (fun f => f.tc == .nmap && (lookup f.key kvs).all (·.isNull)))
+             then ["requiredMapAbsent"] else []) ++
           (if dateTrimHit d kvs then ["dateTrim"] else [])
         here ++ kvs.flatMap (fun kv => match fieldByKey d kv.1 with
                                       | some f => (if isDefault f.tc kv.2 then [] else ["field:" ++ k ++ "." ++ kv.1]) ++ branches T f.shape kv.2
@@ -107,8 +116,14 @@ def handle (j : Json) : Json :=
   let second := first.bind (rt T fuel s)
   let normal := normalB T fuel s doc
   let br := (branches T s doc).eraseDups
-  let excl := if br.contains "dateTrim" then ["DateExampleTrim"] else []
-  let oj : Option JV → Json := fun o => match o with | some v => toJson v | none => Json.str "<out of fuel>"
+  let excl := (if br.contains "dateTrim" then ["DateExampleTrim"] else []) ++
+    (if br.contains "nullRefEntry" then ["NullRefEntry"] else []) ++
+    (if br.contains "requiredMapAbsent" then ["RequiredMapAbsent"] else []) ++
+    (if br.contains "types.empty" then ["EmptyTypeList"] else [])
+  let oj : Res JV → Json := fun o => match o with
+    | .ok v => toJson v
+    | .error .panic => jobj [("panic", Json.bool true)]
+    | .error .fuel => Json.str "<out of fuel>"
   jobj [
     ("model", jobj [("first", oj first), ("second", oj second)]),
     ("spec", jobj [("normal", Json.bool normal), ("first", if normal then toJson doc else Json.null), ("stable", Json.bool true)]),
